@@ -58,6 +58,7 @@ func ProfileFor(prop string) *Profile {
 		w["bad"], w["idxtype"], w["keyupdate"], w["batchbad"], w["batchw"] = 4, 2.5, 0.5, 1, 1
 		w["batchpartial"], w["keyextra"] = 1.5, 0.4
 		w["idxcreate"], w["idxdrop"] = 0.5, 0.2
+		w["native"], w["scan"] = 0.5, 0.8
 		w["putcond"], w["updcond"], w["delcond"] = 0.8, 0.8, 0.8
 		w["toggle"] = 0.3
 		p.FaultFree = 0.1
